@@ -178,12 +178,26 @@ pub fn step<const M: usize>(s: &mut Sim<M>, rep: &mut Report, p: &Profile) -> (u
             let z = s.rng.chance(1, 5);
             s.op_allocate(rep, size, align, z)
         }
+        7 if !s.zsts.is_empty() && s.rng.chance(1, 8) => {
+            s.op_deallocate_zst(rep);
+            Outcome::Ok
+        }
         7 => {
             let last = s.rng.chance(1, 2);
             if let Some(a) = s.pick_layout_block(last) {
                 s.op_deallocate(rep, a);
             }
             Outcome::Ok
+        }
+        8 if !s.zsts.is_empty() && s.rng.chance(1, 6) => {
+            let new_size = match s.rng.below(4) {
+                0 => 0,
+                1 => s.rng.range(1, 40),
+                _ => pick_size(s, p).min(2000),
+            };
+            let new_align = pick_align(s, p).min(64);
+            let z = s.rng.chance(1, 2);
+            s.op_realloc_zst(rep, new_size, new_align, z)
         }
         8 => {
             let last = s.rng.chance(3, 5);
